@@ -388,6 +388,36 @@ example :
     ∃ r ∈ σ.reqLog, ∃ a ∈ σ.acqLog, r.retAt < a.lockedAt ∧ ¬ r.setAt < a.env.freshAt := by
   decide
 
+/-! ## file-change notifications: which `notify` events request a reload
+`MJ.Gen.fsEventFilter` = the `matches!` pattern of `with_fs_watcher`, evaluated by the extractor on
+every concrete `EventKind` of the vendored notify-types crate (variant lists regenerated from it). -/
+
+/-- **every event that denotes a change of file content or of the set of files requests a reload**
+    (Create, Remove, Modify(Data), Modify(Name(m)) for every RenameMode m, Modify(Any)) -/
+theorem every_namespace_change_event_requests :
+    ∀ p ∈ MJ.Gen.fsEventFilter, fsChangesFiles p.1 = true → p.2 = true := by decide
+
+/-- … and such a notification is a requester thread of the model (so `no_lost_request` covers it) -/
+theorem fs_change_is_requester :
+    ∀ p ∈ MJ.Gen.fsEventFilter, fsChangesFiles p.1 = true → fsThread p.2 = Thread.reqIdle := by decide
+
+/-- the rename half that is the ONLY event for a file moved out of the tree / a moved root, and
+    every other rename mode of the vendored notify version, are accepted -/
+theorem all_rename_modes_request :
+    ∀ m ∈ MJ.Gen.notifyRenameMode, (["Modify", "Name", m], true) ∈ MJ.Gen.fsEventFilter := by decide
+
+/-- the table is exhaustive over the vendored enums: every top-level kind and every ModifyKind occurs -/
+theorem fs_filter_table_exhaustive :
+    (∀ k ∈ MJ.Gen.notifyEventKind, ∃ p ∈ MJ.Gen.fsEventFilter, p.1.head? = some k) ∧
+    (∀ k ∈ MJ.Gen.notifyModifyKind, ∃ p ∈ MJ.Gen.fsEventFilter, p.1.take 2 = ["Modify", k]) ∧
+    "From" ∈ MJ.Gen.notifyRenameMode := by decide
+
+/-- access events (the reloader's own reads of the templates!) and metadata-only changes do not
+    request a reload — "without a request the creator is not called again" -/
+theorem fs_filter_excludes_access_and_metadata :
+    ∀ p ∈ MJ.Gen.fsEventFilter,
+      (p.1.head? = some "Access" ∨ p.1.take 2 = ["Modify", "Metadata"]) → p.2 = false := by decide
+
 theorem C20_holds : C20_full := by
   intro σ h
   refine ⟨fun r hr a ha hlt => (no_lost_request h r hr a ha hlt).1, request_before_check h, ?_,
